@@ -15,6 +15,7 @@ import Mamba.Lemmas.CanonFOrbMain
 import Mamba.Lemmas.CanonFGenMain
 import Mamba.Lemmas.CanonFIsoSpec
 import Mamba.Lemmas.CanonFClassInv
+import Mamba.Lemmas.CanonFTotal
 import Mamba.Spec.Iso
 /-!
 # C01 / C02, pattern F — theorems about the faithful model of `graph/canonical.go` (`Mamba/Model/CanonF.lean`)
@@ -905,5 +906,75 @@ theorem canonF_canon_invariant_classes (fuel fuel' : Nat) (g g' : G) (hg : g.WF)
     ∃ p p', r.perm = some p ∧ r'.perm = some p' ∧ p.Perm (List.range g.n) ∧ p'.Perm (List.range g'.n) ∧
       certPos (nbrsOf g') p' g'.n = certPos (nbrsOf g) p g.n ∧ g.induced p = g'.induced p' :=
   canonF_canon_invariant_classes_full fuel fuel' g g' hg hg' hn R cls cls' hvc hvc' hlen hcls r r' h h'
+
+/-! ## (o) TOTALITY: the run returns — no panic, explicit fuel bound; the unconditional forms of the main results
+
+`fuelBound n = slots n 0 + 1` with `slots n d = n * (1 + slots n (d+1))` for `d < n` (`Lemmas/CanonFTotalDef.lean`): an upper
+bound for the number of `splitBin` calls (child slots) in a search tree whose nodes have at most `n` children and depth at
+most `n`. No panic: every slice index is in range and every capacity of `NewStorage(n, m)` /
+`NewOrderedPartition(n, m, …)` suffices (`CapInv`; in particular `generators = generators[:len+1]` stays within its
+capacity `n - 1` because a generator is recorded only when it merges two classes: `ngens + #classes ≤ n`); the re-slicing of
+`currentBest` / `firstLeaf` in the "worse" test is within capacity by the certificate invariant (`len(value) ≤ m`). No fuel
+exhaustion: every iteration of the main loop that does not end the search decreases `mainPot` (child slots still to be
+processed) by at least one. -/
+
+/-- `mainLoop_total`: the main loop returns within `mainPot + 1` iterations, for every invariant that is carried (`MainJ`)
+and provides the progress obligations `MainT` -/
+theorem mainLoop_total {n m : Nat} {nb : Nbrs} {JA JN JS : List (Nat × Nat) → LS → Prop}
+    {JM : List (Nat × Nat) → Bool → LS → Prop} (hJ : MainJ n m nb JA JN JS JM) (hT : MainT n m nb JA JN JS JM)
+    (fuel : Nat) (worse : Bool) (s : LS) (lv : List (Nat × Nat)) (hI : MInv n m nb s) (hw : s.count = 0 → worse = false)
+    (hlv : LevelsOK s.op s.path s.choices lv) (hM : JM lv worse s) (hf : mainPot n worse s < fuel) :
+    ∃ s', mainLoop nb n m fuel worse s = .ok s' :=
+  mainLoopT stablePerm hJ hT fuel worse s lv hI hw hlv hM hf
+
+/-- `canonF_total`: for every well-formed graph and every valid list of vertex classes `CanonicalIsomorphFull` returns: it does
+not panic and the explicit fuel `fuelBound g.n` suffices. -/
+theorem canonF_total (g : G) (hg : g.WF) (vc : Classes) (hvc : ClassesOK g.n vc) :
+    ∃ r, canonicalIsomorphFull (fuelBound g.n) g vc = .ok r :=
+  canonF_total_full g hg vc hvc
+
+/-- `canonF_perm_total`: … and the result is a permutation of `0..n-1` -/
+theorem canonF_perm_total (g : G) (hg : g.WF) (vc : Classes) (hvc : ClassesOK g.n vc) :
+    ∃ r p, canonicalIsomorphFull (fuelBound g.n) g vc = .ok r ∧ r.perm = some p ∧ p.Perm (List.range g.n) := by
+  obtain ⟨r, h⟩ := canonF_total g hg vc hvc
+  obtain ⟨p, hp, hperm⟩ := canonF_perm (fuelBound g.n) g vc hvc r h
+  exact ⟨r, p, h, hp, hperm⟩
+
+/-- `canonF_canon_complete_total` (C01, unconditional): the two runs return, and the relabelled graphs are equal iff the
+graphs are isomorphic -/
+theorem canonF_canon_complete_total (g g' : G) (hg : g.WF) (hg' : g'.WF) (hn : g.n ≠ 0) (hn' : g'.n ≠ 0) :
+    ∃ r r' p p', canonicalIsomorphFull (fuelBound g.n) g none = .ok r ∧
+      canonicalIsomorphFull (fuelBound g'.n) g' none = .ok r' ∧ r.perm = some p ∧ r'.perm = some p' ∧
+      (g.induced p = g'.induced p' ↔ GSearch.Iso g g') := by
+  obtain ⟨r, h⟩ := canonF_total g hg none trivial
+  obtain ⟨r', h'⟩ := canonF_total g' hg' none trivial
+  obtain ⟨p, p', hp, hp', hiff⟩ := canonF_canon_complete_spec _ _ g g' hg hg' hn hn' r r' h h'
+  exact ⟨r, r', p, p', h, h', hp, hp', hiff⟩
+
+/-- `canonF_canon_invariant_total`: a relabelled copy gets the same canonically relabelled graph -/
+theorem canonF_canon_invariant_total (g g' : G) (hg : g.WF) (hg' : g'.WF) (hn : g.n ≠ 0) (hiso : GSearch.Iso g g') :
+    ∃ r r' p p', canonicalIsomorphFull (fuelBound g.n) g none = .ok r ∧
+      canonicalIsomorphFull (fuelBound g'.n) g' none = .ok r' ∧ r.perm = some p ∧ r'.perm = some p' ∧
+      g.induced p = g'.induced p' := by
+  have hn' : g'.n ≠ 0 := by rw [← hiso.1]; exact hn
+  obtain ⟨r, r', p, p', h, h', hp, hp', hiff⟩ := canonF_canon_complete_total g g' hg hg' hn hn'
+  exact ⟨r, r', p, p', h, h', hp, hp', hiff.2 hiso⟩
+
+/-- `canonF_orbits_exact_total` (C02, first clause, unconditional) -/
+theorem canonF_orbits_exact_total (g : G) (hg : g.WF) (hn : g.n ≠ 0) :
+    ∃ r ds, canonicalIsomorphFull (fuelBound g.n) g none = .ok r ∧ r.orbits = some ds ∧ ds.length = g.n ∧
+      ∀ a b, a < g.n → b < g.n → (Disjoint.rep ds.toArray a = Disjoint.rep ds.toArray b ↔ SameOrbit g a b) := by
+  obtain ⟨r, h⟩ := canonF_total g hg none trivial
+  obtain ⟨ds, h1, h2, h3⟩ := canonF_orbits_exact _ g hg hn r h
+  exact ⟨r, ds, h, h1, h2, h3⟩
+
+/-- `canonF_generators_generate_total` (C02, second clause, unconditional): the returned generators are automorphisms and
+generate every automorphism -/
+theorem canonF_generators_generate_total (g : G) (hg : g.WF) (hn : g.n ≠ 0) :
+    ∃ r gs, canonicalIsomorphFull (fuelBound g.n) g none = .ok r ∧ r.gens = some gs ∧
+      (∀ γ ∈ gs, IsAutG g γ) ∧ ∀ γ, IsAutG g γ → GenBy (fun x => x ∈ gs) g.n γ := by
+  obtain ⟨r, h⟩ := canonF_total g hg none trivial
+  obtain ⟨gs, h1, h2⟩ := canonF_generators_generate _ g hg hn r h
+  exact ⟨r, gs, h, h1, canonF_generators_sound _ g hg none trivial r h gs h1, h2⟩
 
 end C01F
